@@ -264,7 +264,14 @@ def check(ctx):
         for seq in strfrag.sequences(fr):
             for sub in ([seq] + [list(x[2]) for x in seq if x[0] == 'join']):
                 m_ = strfrag.merge_consts(sub)
+                if len(m_) >= 3 and m_[0][0] == 'expr' and P.src(m_[0][1]) == aname and m_[1] == ('const', '=') and sub is seq:
+                    r3.fail('every attribute is preceded by literal whitespace', rel, e.lineno, 'an attribute piece starts directly with the attribute name: `%s`' % P.src(e)[:80])
                 for i in range(len(m_) - 3):
+                    if m_[i + 1][0] == 'expr' and P.src(m_[i + 1][1]) == aname and m_[i + 2] == ('const', '=') and m_[i + 3][0] == 'expr' and P.src(m_[i + 3][1]) == 'quoteattr(%s)' % vname \
+                            and not (m_[i][0] == 'const' and m_[i][1] != '' and m_[i][1].strip(' \n\t') == ''):
+                        r3.fail('every attribute is preceded by literal whitespace', rel, e.lineno,
+                                'the text in front of an attribute name is `%s`, not a non-empty whitespace literal: when that value is empty (whitespace disabled, zero indent) two '
+                                'attributes run together and the tag is not well-formed' % strfrag.show([m_[i]]))
                     if m_[i][0] == 'const' and m_[i][1].endswith(' ') and m_[i][1].strip() == '' and m_[i + 1][0] == 'expr' and P.src(m_[i + 1][1]) == aname and m_[i + 2] == ('const', '=') \
                             and m_[i + 3][0] == 'expr' and P.src(m_[i + 3][1]) == 'quoteattr(%s)' % vname:
                         attr_piece += 1
@@ -394,6 +401,8 @@ def _strish(v, f):
         for t, val, st in P.stores_in(f):
             if isinstance(t, ast.Name) and t.id == v.id:
                 if isinstance(val, ast.Constant) and isinstance(val.value, str):
+                    return True
+                if isinstance(val, ast.Call) and isinstance(val.func, ast.Attribute) and val.func.attr in ('join', 'replace', 'format', 'strip'):
                     return True
                 if isinstance(val, (ast.JoinedStr,)) or (isinstance(val, ast.BinOp) and isinstance(val.op, ast.Mod)):
                     return True
